@@ -1,6 +1,6 @@
 #feats: heredoc_bs
 cat <<E
-a\
-b $LINENO
+h1 a\
+b
 E
-P
+echo $LINENO; P
